@@ -19,6 +19,9 @@ R4  interactive reads stop at a newline: the getc loop of yyread (control depend
 R5  yyinput / yy_get_next_buffer contract: the offset saved before the refill is yy_c_buf_p - yytext_ptr - 1 at the call.
     R4 also requires that getc is control dependent on the room test (no byte is taken from the stream without room).
 
+R6  yy_init_buffer stores yy_input_file, yy_fill_buffer and yy_is_interactive on every path (yyrestart on the current buffer).
+R7  the refill decision in yylex / yyinput reads the count register, not the copy saved in the buffer object.
+
 This module also holds the back-end identifier map and the buffer-pointer taint shared by c04.py and c08.py.
 """
 import re
@@ -76,6 +79,8 @@ CELL_ROLE = {
     'yymorelen': 'MORELEN',
     'yybufferstack': 'BUFSTACK',
     'yydidbufferswitchoneof': 'DIDSWITCH',
+    'yyinputfile': 'INPUTFILE',
+    'yyfillbuffer': 'FILLBUF',
 }
 PTR_ROLES = ('CBUFP', 'TEXT', 'CHBUF', 'CPOS', 'FULLMATCH', 'BUFPOS')
 
@@ -942,7 +947,7 @@ def r4(ctx, sc):
 class _Unknown(Exception):
     pass
 
-def r5(ctx, sc, consts, eof):
+def r5(ctx, sc, consts, eof, rule='C03.R5'):
     """the contract between yyinput and yy_get_next_buffer: the callee keeps yy_c_buf_p - yytext_ptr - 1 bytes and puts the
     new data right behind them, so the offset yyinput saves before the call and uses to re-derive yy_c_buf_p afterwards
     (yy_c_buf_p = yytext_ptr + offset on the continue-scan arm) must be exactly one less than yy_c_buf_p - yytext_ptr at
@@ -968,6 +973,7 @@ def r5(ctx, sc, consts, eof):
                     if i is not None and i.op == 'load' and a.loc(i.ops[0])[0] == 'local': offs.add(a.loc(i.ops[0])[1])
             n += 1
             key = 'C03.R5:%s:yyinput:saved-offset-is-one-less-than-scan-position' % skel(v)
+            if rule != 'C03.R5': key = '%s:%s:yyinput:refill-resumes-at-the-end-of-buffer-byte' % (rule, skel(v))
             if len(offs) != 1:
                 rep.broken('%s: the rebase yy_c_buf_p = yytext_ptr + offset after yy_get_next_buffer() was not found in %s (%s)' % (v.name, fn.name, sorted(offs)))
             O = offs.pop()
@@ -1015,11 +1021,95 @@ def r5(ctx, sc, consts, eof):
                 if oval is None: raise _Unknown()
             except _Unknown:
                 rep.broken('%s: the saved offset / yy_c_buf_p before yy_get_next_buffer() in %s is not a plain pointer difference on straight-line code; C03.R5 cannot be decided' % (v.name, fn.name))
+            if rule != 'C03.R5':
+                # C08: input() returns each character exactly once.  The byte that made yyinput refill sits at the entry
+                # position (the end-of-buffer byte); after the refill the first new byte is at the same offset from
+                # yytext_ptr, so the saved offset must be taken from the scan pointer while it still points AT that byte.
+                if oval == 0:
+                    rep.ok(rule, '%s %s: the offset saved before yy_get_next_buffer@%s is that of the end-of-buffer byte (scan pointer as on entry)' % (v.name, fn.name, call.line))
+                else:
+                    rep.fail(rule, key, where(call), 'yyinput saves the offset of (scan pointer%+d) instead of the end-of-buffer byte it is about to replace: after a successful refill yy_c_buf_p = yytext_ptr + offset is %d byte(s) off and input() %s [variant %s]' % (
+                        oval, abs(oval), 'skips the first byte of every new block' if oval > 0 else 'returns a byte twice', v.name), variant=v.describe())
+                continue
             if pos - oval == 1:
                 rep.ok('C03.R5', '%s %s: at yy_get_next_buffer@%s yy_c_buf_p is entry%+d, the saved offset is (entry%+d) - yytext_ptr: one less' % (v.name, fn.name, call.line, pos, oval))
             else:
                 rep.fail('C03.R5', key, where(call), 'yyinput saves offset = (yy_c_buf_p%+d) - yytext_ptr but calls yy_get_next_buffer() with yy_c_buf_p%+d (relative to entry): the callee keeps yy_c_buf_p - yytext_ptr - 1 bytes, so yy_c_buf_p = yytext_ptr + offset %s [variant %s]' % (
                     oval, pos, 'skips the first byte read' if pos - oval < 1 else 'steps back into text already returned', v.name), variant=v.describe())
+    return n
+
+# ---------------------------------------------------------------- R6
+
+INIT_CELLS = (('INPUTFILE', 'yy_input_file'), ('FILLBUF', 'yy_fill_buffer'), ('INTERACTIVE', 'yy_is_interactive'))
+
+def r6(ctx, sc):
+    """yy_init_buffer attaches a (new) stream to a buffer; yyrestart() calls it for the current buffer as well.  The
+    properties that depend on the stream - yy_input_file, yy_fill_buffer and yy_is_interactive (which decides how
+    yyread requests input) - are therefore stored on every path to the return, not only when the buffer is not the
+    current one (only the line/column counters are kept for the current buffer)."""
+    rep = ctx.rep; v = sc.v; n = 0
+    for fn in sc.fns('INITBUF'):
+        a = sc.fa(fn); cfg = sc.prog.cfg(fn)
+        for role, nm in INIT_CELLS:
+            sts = [x for x in fn.ins if x.op == 'store' and cell_role(a.loc(x.ops[1])) == role]
+            n += 1
+            key = 'C03.R6:%s:yy_init_buffer:%s-set-on-every-path' % (skel(v), nm)
+            r = cfg.reach(first_ins(fn.entry), avoid=sts, include_start=True)
+            rets = [x for x in r if x.op == 'ret']
+            if rets:
+                rep.fail('C03.R6', key, where(sts[0]) if sts else fwhere(fn), 'yy_init_buffer can return without storing %s: yyrestart() on %s keeps the value of the previous stream [variant %s]' % (
+                    nm, 'the current buffer' if sts else 'any buffer', v.name), witness=witness(cfg, first_ins(fn.entry), rets[0], avoid=sts, include_start=True), variant=v.describe())
+            else:
+                rep.ok('C03.R6', '%s %s: %s stored (@%s) on every path to return' % (v.name, fn.name, nm, ','.join(str(x.line) for x in sts)))
+    return n
+
+# ---------------------------------------------------------------- R7
+
+def r7(ctx, sc):
+    """the decision to refill - the comparison of yy_c_buf_p with the end of the valid text that guards every call of
+    yy_get_next_buffer in yylex and yyinput - reads the count from the scanner register yy_get_next_buffer maintains;
+    the copy in the buffer object is only written back when buffers are switched and is stale after a refill that
+    carried a partial token forward."""
+    rep = ctx.rep; v = sc.v; n = 0
+    for role in ('LEX', 'INPUT'):
+        for fn in sc.fns(role):
+            a = sc.fa(fn); cfg = sc.prog.cfg(fn)
+            for call in sc.calls(fn, 'GNB'):
+                n += 1
+                key = 'C03.R7:%s:%s:refill-decision-reads-live-count' % (skel(v), norm(fn.name))
+                tests = []
+                for b in fn.blocks:
+                    br = b.ins[-1]
+                    if br.op != 'br' or not br.ops or b is call.blk or not cfg.dominates(b, call.blk): continue
+                    d = fn.def_of(br.ops[0])
+                    if d is None or d.op != 'icmp' or d.pred not in ('ule', 'ult', 'uge', 'ugt'): continue
+                    for x, y in ((d.ops[0], d.ops[1]), (d.ops[1], d.ops[0])):
+                        dx = fn.def_of(x)
+                        if dx is None or dx.op != 'load' or cell_role(a.loc(dx.ops[0])) != 'CBUFP': continue
+                        g = fn.def_of(y)
+                        if g is None or g.op != 'getelementptr' or len(g.ops) != 2: continue
+                        bd = fn.def_of(g.ops[0])
+                        if bd is None or bd.op != 'load' or cell_role(a.loc(bd.ops[0])) != 'CHBUF': continue
+                        # loads that feed the index, looking through temporaries (locals with their stores)
+                        locs = []; work = [g.ops[1]]; seenl = set()
+                        while work:
+                            for l in flow.value_slice(fn, work.pop()):
+                                if l.op != 'load': continue
+                                ll = a.loc(l.ops[0])
+                                if ll[0] == 'local':
+                                    if ll[1] not in seenl:
+                                        seenl.add(ll[1]); work += [st.ops[0] for st in a.local_stores(ll[1])]
+                                else: locs.append(ll)
+                        tests.append((br, [l for l in locs if cell_role(l) == 'NCHARS']))
+                if not tests:
+                    rep.fail('C03.R7', key, where(call), 'the call of yy_get_next_buffer in %s is not guarded by a comparison of yy_c_buf_p with &yy_ch_buf[count] [variant %s]' % (norm(fn.name), v.name), variant=v.describe())
+                    continue
+                br, cnt = tests[-1]
+                if cnt and not any(saved_in_buffer(l) for l in cnt):
+                    rep.ok('C03.R7', '%s %s: refill decision@%s reads the count register' % (v.name, fn.name, br.line))
+                else:
+                    rep.fail('C03.R7', key, where(br), '%s decides whether to refill (line %s) with %s: after a refill that carried a partial token forward the saved copy is stale, a NUL in the text is then taken for the end of the buffer (or the reverse) [variant %s]' % (
+                        norm(fn.name), br.line, 'the copy of yy_n_chars saved in the buffer object' if cnt else 'something else than yy_n_chars', v.name), variant=v.describe())
     return n
 
 # ---------------------------------------------------------------- driver
@@ -1044,6 +1134,21 @@ def flush_vac(rep):
     for text, names in rep.__dict__.get('_vac', {}).items():
         rep.vacuous.append('%s [%d variants: %s%s]' % (text, len(names), ', '.join(names[:6]), ', ...' if len(names) > 6 else ''))
 
+def count_guard(rep, cond, msg):
+    """vacuity guard on an instance count.  A vanished instance is ANALYSIS-BROKEN (exit 2) only when the run has no
+    violation to report: an edit that removes an anchored construct *and* is reported as a violation must end in exit 1."""
+    if cond: return
+    import common
+    open_keys, _ = common.load_known(rep.prop)
+    if any(v.key not in open_keys for v in rep.viol):
+        rep.note('count guard not enforced because a violation is reported: ' + msg)
+        return
+    rep.broken(msg)
+
+def saved_in_buffer(loc):
+    """the location is a member of the buffer object (struct yy_buffer_state): the saved copy, not the scanner register"""
+    return isinstance(loc, tuple) and bool(loc) and loc[0] == 'field' and 'buffer_state' in loc[1]
+
 def usable(v):
     return v.ll is not None and not v.name.endswith('reject_undeclared')
 
@@ -1051,7 +1156,7 @@ def run(ctx):
     rep = ctx.rep
     vs = [v for v in ctx.variants() if usable(v)]
     rep.require(len(vs) >= 60, 'only %d scanner variants compiled to IR' % len(vs))
-    tot = {'R1': 0, 'R2': 0, 'R3': 0, 'R4': 0, 'R5': 0}
+    tot = {'R1': 0, 'R2': 0, 'R3': 0, 'R4': 0, 'R5': 0, 'R6': 0, 'R7': 0}
     backends = set()
     for v in vs:
         sc = Scanner(v)
@@ -1061,6 +1166,8 @@ def run(ctx):
         tot['R2'] += r2(ctx, sc, lex, gnb, consts, eof)
         tot['R3'] += r3(ctx, sc, gnb)
         tot['R5'] += r5(ctx, sc, consts, eof)
+        tot['R6'] += r6(ctx, sc)
+        tot['R7'] += r7(ctx, sc)
         k = r4(ctx, sc)
         if k == 0: vac(rep, v, 'C03.R4: no stdio getc loop (%s)' % ('C++ reads through std::istream in LexerInput' if v.backend == 'cxx' else 'the scanner uses read(2): %option read or -Cf/-CF'))
         tot['R4'] += k
@@ -1069,12 +1176,15 @@ def run(ctx):
     for k, n in tot.items(): rep.setcount('instances_' + k, n)
     # vacuity guards: instances are counted here (rep.fail merges equal keys of different variants, so the
     # reporter's own count drops when one defect shows in many variants)
-    rep.require(tot['R1'] >= 2 * len(vs), 'C03.R1 matched %d instances, 2 per variant (%d) expected' % (tot['R1'], 2 * len(vs)))
-    rep.require(tot['R2'] >= 12 * len(vs), 'C03.R2 matched %d instances, at least 12 per variant expected' % tot['R2'])
-    rep.require(tot['R3'] >= 60, 'C03.R3 matched %d instances, one per non-REJECT variant expected' % tot['R3'])
-    rep.require(tot['R4'] >= 60, 'C03.R4 matched %d instances, one per C variant with stdio input expected' % tot['R4'])
-    rep.require(tot['R5'] >= len(vs) - 8, 'C03.R5 matched %d instances, one per variant with yyinput expected' % tot['R5'])
+    count_guard(rep, tot['R1'] >= 2 * len(vs), 'C03.R1 matched %d instances, 2 per variant (%d) expected' % (tot['R1'], 2 * len(vs)))
+    count_guard(rep, tot['R2'] >= 12 * len(vs), 'C03.R2 matched %d instances, at least 12 per variant expected' % tot['R2'])
+    count_guard(rep, tot['R3'] >= 60, 'C03.R3 matched %d instances, one per non-REJECT variant expected' % tot['R3'])
+    count_guard(rep, tot['R4'] >= 60, 'C03.R4 matched %d instances, one per C variant with stdio input expected' % tot['R4'])
+    count_guard(rep, tot['R5'] >= len(vs) - 8, 'C03.R5 matched %d instances, one per variant with yyinput expected' % tot['R5'])
     rep.floor('C03.R5', 1, 'the refill call in yyinput')
+    count_guard(rep, tot['R6'] >= 3 * len(vs), 'C03.R6 matched %d instances, 3 per variant (yy_init_buffer) expected' % tot['R6'])
+    count_guard(rep, tot['R7'] >= 2 * len(vs) - 12, 'C03.R7 matched %d instances, one per refill call in yylex and yyinput expected' % tot['R7'])
+    rep.floor('C03.R6', 1, 'yy_init_buffer'); rep.floor('C03.R7', 1, 'refill decisions')
     rep.floor('C03.R1', 1, 'two refill arms (continue-scan, last-match) in yylex of every variant')
     rep.floor('C03.R2', 1, 'yytext_ptr re-derivation, reallocs x (locals + 2 cells), refill arms of yylex and yyinput x (yy_c_buf_p + locals)')
     rep.floor('C03.R3', 1, 'one growth arm in yy_get_next_buffer of every non-REJECT variant')
